@@ -23,6 +23,9 @@ type c08Family struct {
 	base int                // smallest size (0 = tier default)
 }
 
+// c08MayReject: families whose documents are invalid on purpose (cut off in the middle); what they cost before being rejected is measured.
+var c08MayReject = map[string]bool{"cbe-nested-unfilled-records-of-a-big-type": true}
+
 func c08Uleb(v uint64) []byte {
 	var out []byte
 	for {
@@ -148,6 +151,21 @@ var c08Families = []c08Family{
 			d = append(d, 0x93, 0x02, 0x01, 0x7f, 0xe1, 0x02, 0x01, 0x02)
 		}
 		return append(d, 0x9b)
+	}, 0},
+	// a record type with many keys, then many records of that type opened inside each other and never filled in (the document
+	// just ends): whatever is reserved per open record must not depend on the size of the record type
+	{"cbe-nested-unfilled-records-of-a-big-type", false, func(n int) []byte {
+		d := []byte{0x81, 0, 0x7f, 0xf1, 0x01, 'r'}
+		for i := 0; len(d) < n/2; i++ {
+			k := fmt.Sprintf("k%d", i)
+			d = append(d, byte(0x80+len(k)))
+			d = append(d, k...)
+		}
+		d = append(d, 0x9b)
+		for i := 0; len(d) < n && i < 900; i++ {
+			d = append(d, 0x96, 0x01, 'r')
+		}
+		return d
 	}, 0},
 	{"cbe-many-markers", false, func(n int) []byte {
 		d := []byte{0x81, 0, 0x9a}
@@ -287,7 +305,7 @@ func init() {
 		Rule: "memory: adversarial CBE documents (<= 64 bytes, or up to 70 KB when real payload follows the header) with an inflated length in every header kind (string/array chunk headers, identifier, media type, big integer, custom type, long ULEB128), decoded under " +
 			"MaxArraySizeBytes in {1 KiB, 64 KiB, 1 MiB}; observed: runtime.MemStats.TotalAlloc around one decode (after a warm-up decode, GOMAXPROCS=1, GC forced), process death under RLIMIT_AS 4 GiB; oracle " +
 			"TotalAlloc <= 8 MiB + 4096*len(doc) + 8*MaxArraySizeBytes. time, restated as bounded scaling: " + fmt.Sprint(len(c08Families)) + " document families (many small tokens, long strings, escapes, wide maps, nesting, long typed arrays, " +
-			"many chunks, markers, comments) at sizes n, 2n, 4n, 8n; deterministic oracle: growth exponent log2(X(8n)/X(n))/3 <= 1.5 for X = TotalAlloc and X = Mallocs; CPU time (min of 3, getrusage) is a second observable " +
+			"many chunks, markers, comments) at sizes n, 2n, 4n, 8n; deterministic oracle: growth exponent log2(X(8n)/X(n))/3 <= 1.5 for X = TotalAlloc and X = Mallocs, and TotalAlloc(8n) <= 8 MiB + 512 (CBE) / 4096 (CTE) bytes per input byte; CPU time (min of 3, getrusage) is a second observable " +
 			"that can raise a violation only above 1.6 on documents whose smallest size needs >= 20 ms, twice. Non-trivial = measured document; distinct = distinct (family|header kind, size, limit).",
 		Assumptions: []string{"no finite run decides an asymptote: super-linearity that only shows beyond 8n (quick 32 KiB, thorough 512 KiB) is not detected", "allocation counters are deterministic for a single-goroutine decode; CPU time is noisy and only used above a wide threshold"},
 		Cases:       func(tier string) int { return c08MemCases + len(c08Families)*tierN(tier, 1, 3) },
@@ -394,7 +412,7 @@ func runC08(c *fw.Ctx, idx int) {
 		best := math.Inf(1)
 		for rpt := 0; rpt < 3; rpt++ {
 			a, m, t, errs := c08Measure(doc, fam.cte, cfg)
-			if errs != "" {
+			if errs != "" && !c08MayReject[fam.name] {
 				c.Fail("family-document-rejected:"+fam.name, map[string]interface{}{"family": fam.name, "size": len(doc), "err": errs})
 				return
 			}
@@ -422,6 +440,18 @@ func runC08(c *fw.Ctx, idx int) {
 	detail := map[string]interface{}{"family": fam.name, "sizes": sizes, "TotalAlloc": allocs, "Mallocs": mallocs, "cpu_s": cpus, "alloc_exponent": ea, "mallocs_exponent": em, "cpu_exponent": et}
 	if ea > 1.5 || em > 1.5 {
 		c.Fail("superlinear-allocation:"+fam.name, detail)
+		return
+	}
+	// an absolute bound next to the growth exponent: linear growth with an absurd constant is caught here. Honest CBE documents
+	// cost < 30 allocated bytes per input byte, CTE documents < 500 (measured, see alloc_bytes_per_input_byte in the evidence);
+	// the bounds leave a factor of about 20 and 8.
+	perByte := 512.0
+	if fam.cte {
+		perByte = 4096
+	}
+	if bound := float64(8<<20) + perByte*float64(sizes[3]); allocs[3] > bound {
+		detail["bound"] = bound
+		c.Fail("allocation-exceeds-bound@scaling:"+fam.name, detail)
 		return
 	}
 	if et > 1.6 && cpus[0] >= 0.02 {
